@@ -49,6 +49,12 @@ type world struct {
 	capLog    []string
 	annP      int    // chance (percent) that a step is an annotation operation
 	curOp     string // the most recent manager operation (not the dump lines that follow it)
+
+	// round 4 (failops.go)
+	srcs   []*srcHandle       // parsed keysets whose keys are moved into managers
+	tcache map[string]tclass  // template -> does key generation succeed (decided outside the manager)
+	pool   []*tinkpb.KeyTemplate
+	sec    string // name of the extra section being generated ("" in the original histories)
 }
 
 func statusCode(s keyset.KeyStatus) string {
@@ -271,6 +277,7 @@ func (w *world) step(m int) {
 			}
 		}
 		w.maybeForce(m)
+		before := w.fullState(m)
 		w.tape.Reset()
 		if viaParams {
 			id, err = km.AddNewKeyFromParameters(ps)
@@ -279,6 +286,7 @@ func (w *world) step(m int) {
 		}
 		draws := w.tape.DrawnU32()
 		w.tape.Forced = nil
+		w.errKeeps(m, "Add("+t.name+")", err, before, draws, false)
 		kt := 0
 		if err == nil {
 			es, _ := keyset.VerifManagerDump(km)
@@ -308,6 +316,7 @@ func (w *world) step(m int) {
 			k = w.newAESKey(id, v)
 			idReq = fmt.Sprint(id)
 		}
+		before := w.fullState(m)
 		w.tape.Reset()
 		var id uint32
 		var err error
@@ -320,6 +329,7 @@ func (w *world) step(m int) {
 		}
 		draws := w.tape.DrawnU32()
 		w.tape.Forced = nil
+		w.errKeeps(m, "AddKey", err, before, nil, false)
 		if idReq != "-" && err == nil && fmt.Sprint(id) != idReq {
 			o.Violate("AddKey returned id %d for a key requiring id %s", id, idReq)
 		}
@@ -361,9 +371,13 @@ func (w *world) step(m int) {
 		if len(ot) > 0 {
 			os = strings.Join(ot, ",")
 		}
+		before := w.fullState(m)
 		w.tape.Reset()
 		id, err := km.AddKeyWithOpts(k, internalapi.Token{}, opts...)
 		w.usedInternalAPI[m] = true
+		// the internal API clears the other primaries before it reports an id collision (DESIGN §6 H4,
+		// reproduced by the model): with AsPrimary only the reservations are required to be kept
+		w.errKeeps(m, "AddKeyWithOpts("+strings.Join(ot, ",")+")", err, before, nil, hasOpt(ot, "p"))
 		if err == nil {
 			for _, x := range ot {
 				if x == "p" {
@@ -573,13 +587,11 @@ func (w *world) prologue() {
 	w.afterOp(w.curOp)
 }
 
-func (w *world) history(maxOps int, annBias bool) {
+// resetWorld starts a new independent history: one empty manager, no handles.
+func (w *world) resetWorld() {
 	w.wantAnn = map[int]string{0: "-"}
 	w.cmaps, w.recs, w.tmpRecs, w.tmpNext, w.ctxs = nil, nil, nil, 0, nil
 	w.annP = 6
-	if annBias {
-		w.annP = 22
-	}
 	w.keyTok = map[key.Key]int{}
 	w.nextK = 0
 	w.mgrs = map[int]*keyset.Manager{0: keyset.NewManager()}
@@ -587,9 +599,17 @@ func (w *world) history(maxOps int, annBias bool) {
 	w.ids = nil
 	w.everPrimary = map[int]bool{}
 	w.usedInternalAPI = map[int]bool{}
+	w.srcs = nil
 	w.o.Case()
 	w.o.Emit("M reset", "ok", false)
 	w.o.Emit("M new 0", "ok", false)
+}
+
+func (w *world) history(maxOps int, annBias bool) {
+	w.resetWorld()
+	if annBias {
+		w.annP = 22
+	}
 	nm := 1
 	n := 1 + w.rng.Intn(maxOps)
 	if annBias && w.rng.Chance(70) {
@@ -652,4 +672,6 @@ func main() {
 		w.history(maxOps, i%3 == 1)
 	}
 	o.Hist["histories"] = nh
+	// round 4 (failops.go): appended last with their own rng streams, the lines above are unchanged
+	w.runExtra()
 }
